@@ -57,6 +57,53 @@ CLAIMS = {
              "assigned to every order from its own runner. Not decided: event counts over repeated closes in a whole run.",
         technique="call-set and ordering by dominance + loop shape + who-may-write",
         design="§3 C20"),
+    "C05": dict(
+        text="Partial: fill provenance and orientation decided over the finite domain side x ordering(limit, "
+             "level / vwap): crossing match and fill-or-kill sweep fill exactly on the allowed side of the "
+             "limit and stop at it; own-side ladder; passive and full-match fills at the own limit; "
+             "fill-or-kill branches never reach the queue and always cancel the rest, minimum-fill roll-back; "
+             "best-price-execution lapse precedes every match. Not decided: VWAP value, per-level amounts, minimum-fill arithmetic.",
+        technique="finite-domain evaluation of branch conditions on the CFG + provenance + dominance",
+        design="§3 C05"),
+    "C06": dict(
+        text="Partial (mechanisms): one ladder copy per strategy / per update, consumption written back under "
+             "the same key with the same halving constant, queue consumed first, eligibility orientation, "
+             "service order and iteration of the sorted list, queue captured from the opposite side, matchable "
+             "statuses, per-update traded volume as positive difference of cumulative ladders. Not decided: "
+             "the aggregate bound and the queue arithmetic.",
+        technique="alias / loop-variance analysis + write-back pairing + finite-domain orientation + table extraction",
+        design="§3 C06"),
+    "C08": dict(
+        text="Narrow: antisymmetry of SimulatedOrder.profit decided by path-wise evaluation over the finite "
+             "domain market kind x runner result x dead-heat class x ordering(line, result) with the returned "
+             "expressions normalised to polynomials (LAY == -BACK), zero for void cases; summary = sum over the "
+             "client's matched orders, commission only on a net win; results assigned to every order. Not "
+             "decided: the payout formulas themselves.",
+        technique="parity analysis: finite truth table over CFG paths + polynomial normal form of the returned expressions",
+        design="§3 C08"),
+    "C11": dict(
+        text="Partial (adoption / lookup / status mapping): key agreement lookup vs adoption, adoption only on "
+             "a miss and effect-free for unknown strategies, adoption sequence insert -> charge -> PENDING, "
+             "status mapping decided over local status x bet id x stream status (56 cases), bet-id discipline, "
+             "replacement routing, reconcile before strategies. Not decided: convergence under all "
+             "interleavings, restart equivalence.",
+        technique="key agreement + effect summaries + dominance + finite-domain evaluation of the status mapping",
+        design="§3 C11"),
+    "C14": dict(
+        text="Partial: k-way merge shape (sort ascending before taking the head, processed once, advanced once, "
+             "re-queued under the new head's time, exhausted streams dropped without stopping), one batch per "
+             "accepted update, clock patch discipline (restored unconditionally / in finally, processing inside "
+             "the with), and a lint for nondeterministic sources over the simulation-reachable functions. Not "
+             "decided: equality of two runs; listener filter arithmetic.",
+        technique="loop/merge shape analysis + who-may-write (module attribute) + pairing + call-graph reachability lint",
+        design="§3 C14"),
+    "C17": dict(
+        text="Narrow: ladder constants against Betfair's published increment table, ladders generated from "
+             "those tables, generator shape; OrderValidation dispatch exhaustive with refusing defaults, per "
+             "type validators, every guard present, oriented and refusing, ladder chosen by the ladder "
+             "definition, first default control. Not decided: the arithmetic of the price helpers.",
+        technique="constants vs published table (exact rational arithmetic in the checker) + exhaustive dispatch + guard-set",
+        design="§3 C17"),
     "C02": dict(
         text="Full structural decision: validate-before-mutate (dominance under force=False), refusal edge, "
              "raise-after-write, a refusal marks only a new order (typestate), pairing table request/pending "
